@@ -5,6 +5,7 @@ let ity_of = function
   | "i32" -> i32 | "u32" -> u32 | "i64" -> i64 | "u64" -> u64
   | _ -> raise Not_found
 
+let peek_kind toks = match toks.rest with [] -> "" | x :: _ -> x
 let zi = z_of_int
 let zs = str_of_z
 let is_neg z = match z with Zneg _ -> true | _ -> false
